@@ -20,7 +20,7 @@ Pick(S) == {RandomElement(S)}
 Some(S) == IF S = {} THEN {} ELSE Pick(S)
 
 Spont ==
-  \/ PrepareAny \/ AppendStartAny \/ LookupAny \/ EffStartAny
+  \/ (\E c \in Chans : Prepare(c, Len(inbox[c]))) \/ AppendStartAny \/ LookupAny \/ EffStartAny
   \/ \E s \in 1..Len(stops) : StopReturn(s, "done")
 
 Parked == {<<c, x>> \in Chans \X (1..2) : x <= Len(infl[c]) /\ infl[c][x].ph \in {"start", "rstart"}}
